@@ -66,6 +66,22 @@ TLC_JAR = "/opt/veriftools/tla/tla2tools.jar"
 
 def run_tlc(cwd, root, cfg, workers=1, trace=None, timeout=900, simulate=None, dfs_queue=False, cont=False,
             out_file=None, heap="8g", env_extra=None):
+    """Run TLC; a run that dies in the front end without naming a parse or semantic error (seen once, in a fresh
+    copy of the sandbox with many TLC processes starting at the same time: the standard modules are unpacked to
+    /tmp on every start) is repeated, twice at most."""
+    for attempt in range(3):
+        r = _run_tlc(cwd, root, cfg, workers, trace, timeout, simulate, dfs_queue, cont, out_file, heap, env_extra)
+        e = r.get("error") or ""
+        if "Parsing or semantic analysis failed" in e and "Semantic errors" not in r["out"] and "Parse Error" not in r["out"] \
+                and "Was expecting" not in r["out"] and attempt < 2:
+            time.sleep(2 + attempt)
+            continue
+        return r
+    return r
+
+
+def _run_tlc(cwd, root, cfg, workers=1, trace=None, timeout=900, simulate=None, dfs_queue=False, cont=False,
+             out_file=None, heap="8g", env_extra=None):
     """Run TLC; returns dict(rc, out (text, truncated if out_file), stats...)."""
     env = dict(os.environ)
     jopts = "-Xss1g"
